@@ -287,6 +287,9 @@ func (x *Exec) selectOp(fr *frame, ins *ssa.Select) Value {
 			if ch != nil && len(ch.Buf) > 0 {
 				ch.Buf = ch.Buf[1:]
 			}
+			if ch != nil && ch.OnFire != nil {
+				ch.OnFire()
+			}
 			return mk(i)
 		}
 	}
